@@ -19,28 +19,8 @@ theorem C15_decoder_total_and_exact (input : Bytes) (mfs : Nat) :
     | .incomplete =>
         input.length < Consts.h2FrameHeaderSize ∨
         input.length < Consts.h2FrameHeaderSize + declaredLen input
-    | .err c => c = PROTOCOL_ERROR ∨ c = FRAME_SIZE_ERROR := by
-  cases hd : decode input mfs with
-  | ok h f c =>
-    obtain ⟨rest, rest', e0, e1, hc⟩ := decode_ok hd
-    obtain ⟨h9, hrest, hlen, hmfs, _⟩ := frameHeader_ok e0
-    obtain ⟨hl, hr⟩ := frameBody_ok e1
-    subst hrest hr hc
-    simp only [List.length_drop, Consts.h2FrameHeaderSize] at *
-    exact ⟨by omega, by omega, hlen, hmfs⟩
-  | incomplete =>
-    rcases decode_incomplete hd with e0 | ⟨h, rest, e0, _, hlt⟩
-    · left; simpa [Consts.h2FrameHeaderSize] using frameHeader_eof e0
-    · obtain ⟨h9, hrest, hlen, _, _⟩ := frameHeader_ok e0
-      right
-      subst hrest
-      simp only [List.length_drop, Consts.h2FrameHeaderSize] at *
-      omega
-  | err c =>
-    rcases decode_err hd with e0 | ⟨h, rest, _, e1 | ⟨_, _, hc⟩⟩
-    · exact frameHeader_fail e0
-    · exact frameBody_fail e1
-    · left; exact hc
+    | .err c => c = PROTOCOL_ERROR ∨ c = FRAME_SIZE_ERROR :=
+  c15_decoder_total_and_exact input mfs
 
 /-- all three outcomes occur: a WINDOW_UPDATE followed by a spare byte (13 of 14
     bytes consumed), a truncated frame, an oversized length (reported as soon as
@@ -64,33 +44,8 @@ theorem C15_classification (input : Bytes) (mfs : Nat)
     (hc : Consts.h2FrameHeaderSize + declaredLen input ≤ input.length) :
     outcome (decode input mfs) =
       some (classify (typeByteOf input) (flagsOf input) (sidOf input) (declaredLen input) mfs
-              ((payloadOf input).headD 0)) := by
-  simp only [Consts.h2FrameHeaderSize] at hc
-  have h3 : ¬ input.length < 3 := by omega
-  have h9 : ¬ input.length < 9 := by omega
-  unfold decode frameHeader classify
-  simp only [h3, h9, if_false]
-  by_cases hm : beVal (input.take 3) > mfs
-  · simp [hm, declaredLen, outcome]
-  · simp only [hm, if_false, declaredLen]
-    by_cases hs : sidValid (convertFrameType ((input.drop 3).headD 0)) (mask31 (beVal ((input.drop 5).take 4))) = true
-    · simp only [hs, if_true, typeByteOf, flagsOf, sidOf, payloadOf, declaredLen]
-      have hb := bodyClass_eq (input.drop 9)
-        { len := beVal (input.take 3), ftype := convertFrameType ((input.drop 3).headD 0),
-          flags := (input.drop 4).headD 0, sid := mask31 (beVal ((input.drop 5).take 4)) }
-        (by simp only [List.length_drop, declaredLen] at *; omega)
-      simp only at hb
-      rw [← hb]
-      have hlen : ¬ (input.drop 9).length < beVal (input.take 3) := by
-        simp only [List.length_drop, declaredLen] at *; omega
-      cases hfb : frameBody (input.drop 9) _ with
-      | ok f r => simp [outcome, bodyOutcome]
-      | fail c => simp [outcome, bodyOutcome]
-      | eof =>
-        simp only [List.length_drop] at hlen
-        simp [outcome, bodyOutcome, hlen]
-    · simp only [Bool.not_eq_true] at hs
-      simp only [hs, typeByteOf, sidOf, outcome, Bool.false_eq_true, if_false, if_true]
+              ((payloadOf input).headD 0)) :=
+  c15_classification input mfs hc
 
 example : classify 0 8 1 2 16384 2 = .error PROTOCOL_ERROR := by decide
 example : classify 0 8 1 2 16384 1 = .accept := by decide
@@ -107,14 +62,8 @@ theorem C15_padding_rules_reject (i : Bytes) (h : Header) (hc : h.len ≤ i.leng
     (ht : h.ftype = .data ∨ h.ftype = .headers)
     (hp : flagSet h.flags Consts.h2FlagPadded = true)
     (hbad : h.len = 0 ∨ h.len ≤ (i.take h.len).headD 0) :
-    bodyOutcome (frameBody i h) = .error PROTOCOL_ERROR := by
-  rw [bodyClass_eq i h hc]
-  unfold bodyClass
-  rcases ht with ht | ht
-  · simp only [ht, hp, ↓reduceIte]
-    rw [if_pos (by omega)]
-  · simp only [ht, hp, ↓reduceIte]
-    rw [if_pos (by omega)]
+    bodyOutcome (frameBody i h) = .error PROTOCOL_ERROR :=
+  c15_padding_rules_reject i h hc ht hp hbad
 
 example : bodyOutcome (frameBody [2, 255] { len := 2, ftype := .data, flags := 8, sid := 1 })
     = .error PROTOCOL_ERROR := by decide
@@ -126,18 +75,8 @@ theorem C15_padding_rules_data_accept (p : Nat) (r : Bytes) (h : Header)
     (hp : flagSet h.flags Consts.h2FlagPadded = true) (hlt : p < h.len) :
     frameBody (p :: r) h =
       .ok (.data h.sid (r.take (h.len - 1 - p)) (flagSet h.flags Consts.h2FlagEndStream))
-          ((p :: r).drop h.len) := by
-  obtain ⟨n, hn⟩ : ∃ n, h.len = n + 1 := ⟨h.len - 1, by omega⟩
-  have hlen : ¬ (p :: r).length < n + 1 := by omega
-  have hle : n ≤ r.length := by simp only [List.length_cons] at hc; omega
-  unfold frameBody dataFrame
-  simp only [ht, hlen, if_false, hn, List.take_succ_cons, stripPadding, hp, if_true, List.length_take]
-  have h1 : ¬ p > min n r.length := by omega
-  simp only [h1, if_false, unpad, List.length_take]
-  have h2 : p ≤ min n r.length := by omega
-  simp only [h2, if_true, List.take_take]
-  have h3 : min (min n r.length - p) n = n + 1 - 1 - p := by omega
-  rw [h3]
+          ((p :: r).drop h.len) :=
+  c15_padding_rules_data_accept p r h hc ht hp hlt
 
 example : frameBody [1, 7, 0, 9] { len := 3, ftype := .data, flags := 9, sid := 5 }
     = .ok (.data 5 [7] true) [9] := by decide
@@ -147,10 +86,8 @@ theorem C15_padding_rules_data_plain (i : Bytes) (h : Header)
     (hc : h.len ≤ i.length) (ht : h.ftype = .data)
     (hp : flagSet h.flags Consts.h2FlagPadded = false) :
     frameBody i h =
-      .ok (.data h.sid (i.take h.len) (flagSet h.flags Consts.h2FlagEndStream)) (i.drop h.len) := by
-  have hlen : ¬ i.length < h.len := by omega
-  unfold frameBody dataFrame
-  simp [ht, hlen, stripPadding, hp, unpad, List.take_take]
+      .ok (.data h.sid (i.take h.len) (flagSet h.flags Consts.h2FlagEndStream)) (i.drop h.len) :=
+  c15_padding_rules_data_plain i h hc ht hp
 
 example : frameBody [1, 7, 0, 9] { len := 3, ftype := .data, flags := 0, sid := 5 }
     = .ok (.data 5 [1, 7, 0] false) [9] := by decide
@@ -160,44 +97,8 @@ theorem C15_settings_bounds {i : Bytes} {h : Header} {es : List (Nat × Nat)} {a
     h.ftype = .settings ∧ h.len % Consts.h2SettingsEntrySize = 0 ∧
     es.length * Consts.h2SettingsEntrySize = h.len ∧
     es.length ≤ Consts.h2MaxSettingsEntries ∧
-    (ack = true → es = []) := by
-  unfold frameBody at e
-  split at e
-  all_goals
-    try unfold dataFrame at e
-    try unfold headersFrame at e
-    try unfold priorityFrame at e
-    try unfold rstStreamFrame at e
-    try unfold pushPromiseFrame at e
-    try unfold continuationFrame at e
-    try unfold pingFrame at e
-    try unfold goAwayFrame at e
-    try unfold windowUpdateFrame at e
-    try unfold priorityUpdateFrame at e
-    try unfold unknownFrame at e
-  case h_7 ht =>
-    split at e
-    · cases e
-    · next hack =>
-      split at e
-      · next h6 =>
-        obtain ⟨hcap, hl, hle⟩ := settingsFrame_cap e
-        refine ⟨ht, h6, ?_, hcap, ?_⟩
-        · simp only [Consts.h2SettingsEntrySize] at *; omega
-        · intro ha
-          unfold settingsFrame at e
-          split at e
-          · cases e
-          · split at e
-            · cases e
-            · injection e with e1 e2
-              injection e1 with e3 e4
-              rw [← e4] at ha
-              simp only [ha, Bool.true_and, bne_iff_ne, ne_eq, Decidable.not_not] at hack
-              have : es.length = 0 := by rw [hl, hack]
-              exact List.eq_nil_of_length_eq_zero this
-      · cases e
-  all_goals grind
+    (ack = true → es = []) :=
+  c15_settings_bounds e
 
 example : frameBody [0,3,0,0,0,100, 0,4,0,1,0,0] { len := 12, ftype := .settings, flags := 0, sid := 0 }
     = .ok (.settings [(3, 100), (4, 65536)] false) [] := by decide
@@ -220,11 +121,8 @@ example : firstSettings [0, 3, 0, 0, 0, 100, 0] = .fail FRAME_SIZE_ERROR := by d
 
 /-- on either path the number of entries respects the allocation cap -/
 theorem C15_first_settings_cap {i : Bytes} {es : List (Nat × Nat)} {ack : Bool} {rest : Bytes}
-    (e : firstSettings i = .ok (.settings es ack) rest) : es.length ≤ Consts.h2MaxSettingsEntries := by
-  unfold firstSettings at e
-  split at e
-  · cases e
-  · exact (settingsFrame_cap e).1
+    (e : firstSettings i = .ok (.settings es ack) rest) : es.length ≤ Consts.h2MaxSettingsEntries :=
+  c15_first_settings_cap e
 
 example : firstSettings [0, 3, 0, 0, 0, 100] = .ok (.settings [(3, 100)] false) [] := by decide
 example (i : Bytes) (h : i.length = 390) : firstSettings i = .fail FRAME_SIZE_ERROR := by
@@ -236,10 +134,8 @@ example (i : Bytes) (h : i.length = 390) : firstSettings i = .fail FRAME_SIZE_ER
 theorem C15_decode_encode_header (h : Header) (rest : Bytes) (mfs : Nat)
     (hl : h.len < 16777216) (hm : h.len ≤ mfs) (hf : h.flags < 256) (hw : h.ftype.wf)
     (hs : sidValid h.ftype (mask31 h.sid) = true) :
-    frameHeader (genFrameHeader h ++ rest) mfs = .ok { h with sid := mask31 h.sid } rest := by
-  rw [frameHeader_gen, convert_serialize _ hw, Nat.mod_eq_of_lt hl, Nat.mod_eq_of_lt hf]
-  have : ¬ h.len > mfs := by omega
-  simp [this, hs]
+    frameHeader (genFrameHeader h ++ rest) mfs = .ok { h with sid := mask31 h.sid } rest :=
+  c15_decode_encode_header h rest mfs hl hm hf hw hs
 
 example : frameHeader (genFrameHeader { len := 300, ftype := .headers, flags := 0x25, sid := 0x80000003 } ++ [9]) 16384
     = .ok { len := 300, ftype := .headers, flags := 0x25, sid := 3 } [9] := by decide
@@ -249,19 +145,8 @@ theorem C15_decode_encode_rst_stream (sid code mfs : Nat) (hm : Consts.h2RstStre
     (hs : mask31 sid ≠ 0) (hc : code < 4294967296) :
     decode (genRstStream sid code) mfs =
       .ok { len := Consts.h2RstStreamPayloadSize, ftype := .rstStream, flags := 0, sid := mask31 sid }
-          (.rstStream (mask31 sid) code) (genRstStream sid code).length := by
-  unfold genRstStream
-  have hh := C15_decode_encode_header
-    { len := Consts.h2RstStreamPayloadSize, ftype := .rstStream, flags := 0, sid := sid } (be32 code) mfs
-    (by simp [Consts.h2RstStreamPayloadSize]) hm (by simp) trivial (by simp [sidValid, hs])
-  have hv : beVal (be32 code) = code := by rw [beVal_be32]; omega
-  have hb : frameBody (be32 code)
-      { len := Consts.h2RstStreamPayloadSize, ftype := .rstStream, flags := 0, sid := mask31 sid } =
-      .ok (.rstStream (mask31 sid) code) [] := by
-    simp [frameBody, rstStreamFrame, Consts.h2RstStreamPayloadSize, be32] at hv ⊢
-    exact hv
-  rw [decode_of_ok hh hb]
-  simp
+          (.rstStream (mask31 sid) code) (genRstStream sid code).length :=
+  c15_decode_encode_rst_stream sid code mfs hm hs hc
 
 example : decode (genRstStream 0x80000005 8) 16384
     = .ok { len := 4, ftype := .rstStream, flags := 0, sid := 5 } (.rstStream 5 8) 13 := by decide
@@ -271,21 +156,8 @@ example : decode (genRstStream 0 8) 16384 = .err PROTOCOL_ERROR := by decide
 theorem C15_decode_encode_window_update (sid inc mfs : Nat) (hm : Consts.h2WindowUpdatePayloadSize ≤ mfs) :
     decode (genWindowUpdate sid inc) mfs =
       .ok { len := Consts.h2WindowUpdatePayloadSize, ftype := .windowUpdate, flags := 0, sid := mask31 sid }
-          (.windowUpdate (mask31 sid) (mask31 inc)) (genWindowUpdate sid inc).length := by
-  unfold genWindowUpdate
-  have hh := C15_decode_encode_header
-    { len := Consts.h2WindowUpdatePayloadSize, ftype := .windowUpdate, flags := 0, sid := sid }
-    (be32 (mask31 inc)) mfs
-    (by simp [Consts.h2WindowUpdatePayloadSize]) hm (by simp) trivial (by simp [sidValid])
-  have hv : beVal (be32 (mask31 inc)) = mask31 inc := by
-    rw [beVal_be32]; have := mask31_lt inc; omega
-  have hb : frameBody (be32 (mask31 inc))
-      { len := Consts.h2WindowUpdatePayloadSize, ftype := .windowUpdate, flags := 0, sid := mask31 sid } =
-      .ok (.windowUpdate (mask31 sid) (mask31 inc)) [] := by
-    simp [frameBody, windowUpdateFrame, Consts.h2WindowUpdatePayloadSize, be32] at hv ⊢
-    rw [hv, mask31_idem]
-  rw [decode_of_ok hh hb]
-  simp
+          (.windowUpdate (mask31 sid) (mask31 inc)) (genWindowUpdate sid inc).length :=
+  c15_decode_encode_window_update sid inc mfs hm
 
 example : decode (genWindowUpdate 0 0xFFFFFFFF) 16384
     = .ok { len := 4, ftype := .windowUpdate, flags := 0, sid := 0 } (.windowUpdate 0 0x7FFFFFFF) 13 := by decide
@@ -294,24 +166,8 @@ theorem C15_decode_encode_goaway (last code mfs : Nat) (hm : Consts.h2GoawayPayl
     (hc : code < 4294967296) :
     decode (genGoAway last code) mfs =
       .ok { len := Consts.h2GoawayPayloadSize, ftype := .goAway, flags := 0, sid := 0 }
-          (.goAway (mask31 last) code []) (genGoAway last code).length := by
-  unfold genGoAway
-  have hh := C15_decode_encode_header
-    { len := Consts.h2GoawayPayloadSize, ftype := .goAway, flags := 0, sid := 0 }
-    (be32 (mask31 last) ++ be32 code) mfs
-    (by simp [Consts.h2GoawayPayloadSize]) hm (by simp) trivial (by simp [sidValid, mask31])
-  have h0 : mask31 0 = 0 := by simp [mask31]
-  rw [h0] at hh
-  have hv1 : beVal (be32 (mask31 last)) = mask31 last := by
-    rw [beVal_be32]; have := mask31_lt last; omega
-  have hv2 : beVal (be32 code) = code := by rw [beVal_be32]; omega
-  have hb : frameBody (be32 (mask31 last) ++ be32 code)
-      { len := Consts.h2GoawayPayloadSize, ftype := .goAway, flags := 0, sid := 0 } =
-      .ok (.goAway (mask31 last) code []) [] := by
-    simp [frameBody, goAwayFrame, Consts.h2GoawayPayloadSize, be32] at hv1 hv2 ⊢
-    rw [hv1, hv2, mask31_idem]; simp
-  rw [List.append_assoc, decode_of_ok hh hb]
-  simp
+          (.goAway (mask31 last) code []) (genGoAway last code).length :=
+  c15_decode_encode_goaway last code mfs hm hc
 
 example : decode (genGoAway 0xFFFFFFFF 11) 16384
     = .ok { len := 8, ftype := .goAway, flags := 0, sid := 0 } (.goAway 0x7FFFFFFF 11 []) 17 := by decide
@@ -320,83 +176,23 @@ theorem C15_decode_encode_ping_ack (payload : Bytes) (mfs : Nat) (hp : payload.l
     (hm : Consts.h2PingPayloadSize ≤ mfs) :
     decode (genPingAck payload) mfs =
       .ok { len := Consts.h2PingPayloadSize, ftype := .ping, flags := Consts.h2FlagAck, sid := 0 }
-          (.ping payload true) (genPingAck payload).length := by
-  have hg : genPingAck payload =
-      genFrameHeader { len := Consts.h2PingPayloadSize, ftype := .ping, flags := Consts.h2FlagAck, sid := 0 }
-        ++ payload := by
-    have : genFrameHeader { len := Consts.h2PingPayloadSize, ftype := .ping, flags := Consts.h2FlagAck, sid := 0 }
-        = Consts.h2PingAckHeader := by decide
-    rw [this]; rfl
-  have hh := C15_decode_encode_header
-    { len := Consts.h2PingPayloadSize, ftype := .ping, flags := Consts.h2FlagAck, sid := 0 } payload mfs
-    (by simp [Consts.h2PingPayloadSize]) hm (by simp [Consts.h2FlagAck]) trivial (by simp [sidValid, mask31])
-  have h0 : mask31 0 = 0 := by simp [mask31]
-  rw [h0] at hh
-  have hb : frameBody payload
-      { len := Consts.h2PingPayloadSize, ftype := .ping, flags := Consts.h2FlagAck, sid := 0 } =
-      .ok (.ping payload true) [] := by
-    have ha : flagSet Consts.h2FlagAck Consts.h2FlagAck = true := by decide
-    simp only [Consts.h2PingPayloadSize] at hp
-    simp [frameBody, pingFrame, Consts.h2PingPayloadSize, hp, ha]
-    rw [← hp]; simp
-  rw [hg, decode_of_ok hh hb]
-  simp
+          (.ping payload true) (genPingAck payload).length :=
+  c15_decode_encode_ping_ack payload mfs hp hm
 
 example : decode (genPingAck [1,2,3,4,5,6,7,8]) 16384
     = .ok { len := 8, ftype := .ping, flags := 1, sid := 0 } (.ping [1,2,3,4,5,6,7,8] true) 17 := by decide
 
 theorem C15_decode_encode_settings_ack (mfs : Nat) :
     decode Consts.h2SettingsAck mfs =
-      .ok { len := 0, ftype := .settings, flags := Consts.h2FlagAck, sid := 0 } (.settings [] true) 9 := by
-  have hh : frameHeader Consts.h2SettingsAck mfs =
-      .ok { len := 0, ftype := .settings, flags := Consts.h2FlagAck, sid := 0 } [] := by
-    have e : Consts.h2SettingsAck =
-        genFrameHeader { len := 0, ftype := .settings, flags := Consts.h2FlagAck, sid := 0 } ++ [] := by decide
-    rw [e]
-    have := C15_decode_encode_header { len := 0, ftype := .settings, flags := Consts.h2FlagAck, sid := 0 } [] mfs
-      (by simp) (by simp) (by simp [Consts.h2FlagAck]) trivial (by simp [sidValid, mask31])
-    simpa [mask31] using this
-  have hb : frameBody [] { len := 0, ftype := .settings, flags := Consts.h2FlagAck, sid := 0 } =
-      .ok (.settings [] true) [] := by decide
-  rw [decode_of_ok hh hb]
-  rfl
+      .ok { len := 0, ftype := .settings, flags := Consts.h2FlagAck, sid := 0 } (.settings [] true) 9 :=
+  c15_decode_encode_settings_ack mfs
 
 theorem C15_decode_encode_settings (s : Settings) (mfs : Nat) (hw : s.wf)
     (hm : Consts.h2SettingsEntrySize * Consts.h2SettingsCount ≤ mfs) :
     decode (genSettings s) mfs =
       .ok { len := Consts.h2SettingsEntrySize * Consts.h2SettingsCount, ftype := .settings, flags := 0, sid := 0 }
-          (.settings (settingsEntries s) false) (genSettings s).length := by
-  unfold genSettings
-  have hh := C15_decode_encode_header
-    { len := Consts.h2SettingsEntrySize * Consts.h2SettingsCount, ftype := .settings, flags := 0, sid := 0 }
-    (genEntries (settingsEntries s)) mfs
-    (by simp [Consts.h2SettingsEntrySize, Consts.h2SettingsCount]) hm (by simp) trivial (by simp [sidValid, mask31])
-  have h0 : mask31 0 = 0 := by simp [mask31]
-  rw [h0] at hh
-  obtain ⟨w1, w2, w3, w4, w5⟩ := hw
-  have hes : ∀ e ∈ settingsEntries s, e.1 < 65536 ∧ e.2 < 4294967296 := by
-    intro e he
-    simp only [settingsEntries, List.mem_cons, List.mem_nil_iff, or_false] at he
-    have hb : ∀ b : Bool, b2n b < 4294967296 := by intro b; cases b <;> decide
-    rcases he with rfl | rfl | rfl | rfl | rfl | rfl | rfl | rfl <;>
-      refine ⟨by simp only; decide, ?_⟩ <;> simp only <;>
-      first
-        | assumption
-        | exact hb _
-  have hlen : (genEntries (settingsEntries s)).length = 48 := by
-    rw [genEntries_length]; simp [settingsEntries]
-  have hb : frameBody (genEntries (settingsEntries s))
-      { len := Consts.h2SettingsEntrySize * Consts.h2SettingsCount, ftype := .settings, flags := 0, sid := 0 } =
-      .ok (.settings (settingsEntries s) false) [] := by
-    have hf : flagSet 0 Consts.h2FlagAck = false := by decide
-    have ht : List.take 48 (genEntries (settingsEntries s)) = genEntries (settingsEntries s) := by
-      rw [← hlen]; simp
-    have hd : List.drop 48 (genEntries (settingsEntries s)) = [] := by
-      rw [← hlen]; simp
-    simp [frameBody, settingsFrame, Consts.h2SettingsEntrySize, Consts.h2SettingsCount, Consts.h2MaxSettingsEntries,
-      hf, hlen, ht, hd, parseSettings_genEntries _ hes]
-  rw [decode_of_ok hh hb]
-  simp
+          (.settings (settingsEntries s) false) (genSettings s).length :=
+  c15_decode_encode_settings s mfs hw hm
 
 example : (Settings.mk 4096 false 100 65535 16384 65536 false true).wf := by unfold Settings.wf; decide
 example : decode (genSettings (Settings.mk 4096 false 100 65535 16384 65536 false true)) 16384
@@ -437,8 +233,8 @@ example : ∀ op ∈ [FloodOp.ping, .settings 64, .age 1000], op.wf := by simp [
 theorem C15_flood_detects_ping_burst :
     (floodRun (Flood.new { cfgSmall with maxPing := 3 }) [.ping, .ping, .ping, .ping]).2
       = some (ENHANCE_YOUR_CALM, 4, 3) ∧
-    (floodRun (Flood.new { cfgSmall with maxPing := 3 }) [.ping, .ping, .ping, .age 1000, .ping, .ping]).2 = none := by
-  decide
+    (floodRun (Flood.new { cfgSmall with maxPing := 3 }) [.ping, .ping, .ping, .age 1000, .ping, .ping]).2 = none :=
+  c15_flood_detects_ping_burst
 
 /-- the default thresholds are in the range the theorems talk about (`u32`) -/
 example : FloodCfg.default.maxPing + 1 < U32 ∧ FloodCfg.default.maxGlitch + Consts.h2MaxSettingsEntries < U32 := by
@@ -447,16 +243,16 @@ example : FloodCfg.default.maxPing + 1 < U32 ∧ FloodCfg.default.maxGlitch + Co
 /-- Stream states: for every state of the target stream and every frame kind
     the answer `handle_header_state` gives is one RFC 9113 §5.1 allows. -/
 theorem C15_stream_table_conforms (st : StreamSt) (fk : FrameKind) :
-    headerVerdict (viewOf st) fk ∈ rfcAllowed st fk := by
-  cases st <;> cases fk <;> decide
+    headerVerdict (viewOf st) fk ∈ rfcAllowed st fk :=
+  c15_stream_table_conforms st fk
 
 /-- A stream sozu has refused (its id is above every accepted stream) is
     *closed*, not idle: frames already in flight for it never cost the
     connection. This hinges on the closed/idle test using the watermark that
     also advances on refusals. -/
 theorem C15_refused_stream_frames_keep_connection (fk : FrameKind) (h : fk ≠ .continuation) :
-    (headerVerdict (viewOf .refused) fk).isConnError = false := by
-  cases fk <;> first | exact absurd rfl h | decide
+    (headerVerdict (viewOf .refused) fk).isConnError = false :=
+  c15_refused_stream_frames_keep_connection fk h
 
 /-- the same table with the closed/idle test done on `last_stream_id` (which a
     refusal does not advance) would answer GOAWAY(PROTOCOL_ERROR) there -/
@@ -465,8 +261,8 @@ example : headerVerdict { viewOf .refused with leHighest := false } .windowUpdat
 
 /-- idle streams: anything but HEADERS / PRIORITY is a connection error PROTOCOL_ERROR -/
 theorem C15_idle_stream_frames_are_connection_errors (fk : FrameKind) (h1 : fk ≠ .headers) (h2 : fk ≠ .priority) :
-    headerVerdict (viewOf .idleAbove) fk = .connError PROTOCOL_ERROR := by
-  cases fk <;> first | exact absurd rfl h1 | exact absurd rfl h2 | decide
+    headerVerdict (viewOf .idleAbove) fk = .connError PROTOCOL_ERROR :=
+  c15_idle_stream_frames_are_connection_errors fk h1 h2
 
 example : headerVerdict (viewOf .closedPeerRst) .data = .streamError STREAM_CLOSED := by decide
 example : headerVerdict (viewOf .halfClosedRemote) .windowUpdate = .handled := by decide
@@ -478,18 +274,15 @@ theorem C15_empty_data_counts_content_not_wire (p : Nat) (r : Bytes) (h : Header
     (hc : h.len ≤ (p :: r).length) (ht : h.ftype = .data) (hctx : ctx ≠ .closedStream)
     (hp : flagSet h.flags Consts.h2FlagPadded = true) (hes : flagSet h.flags Consts.h2FlagEndStream = false)
     (hl : h.len = p + 1) :
-    ∃ f rest, frameBody (p :: r) h = .ok f rest ∧ frameEvents ctx h f = [.emptyData] := by
-  refine ⟨_, _, C15_padding_rules_data_accept p r h hc ht hp (by omega), ?_⟩
-  have : h.len - 1 - p = 0 := by omega
-  simp [frameEvents, this, hes, hctx]
+    ∃ f rest, frameBody (p :: r) h = .ok f rest ∧ frameEvents ctx h f = [.emptyData] :=
+  c15_empty_data_counts_content_not_wire p r h ctx hc ht hctx hp hes hl
 
 /-- … and the unpadded zero-length frame -/
 theorem C15_empty_data_unpadded (i : Bytes) (h : Header) (ctx : FrameCtx) (ht : h.ftype = .data)
     (hctx : ctx ≠ .closedStream) (hp : flagSet h.flags Consts.h2FlagPadded = false)
     (hes : flagSet h.flags Consts.h2FlagEndStream = false) (hl : h.len = 0) :
-    ∃ f rest, frameBody i h = .ok f rest ∧ frameEvents ctx h f = [.emptyData] := by
-  refine ⟨_, _, C15_padding_rules_data_plain i h (by omega) ht hp, ?_⟩
-  simp [frameEvents, hl, hes, hctx]
+    ∃ f rest, frameBody i h = .ok f rest ∧ frameEvents ctx h f = [.emptyData] :=
+  c15_empty_data_unpadded i h ctx ht hctx hp hes hl
 
 /-- the three wire forms of an empty DATA frame, and forms that are not counted -/
 example : (decode [0,0,0, 0, 0, 0,0,0,1] 16384, decode [0,0,1, 0, 8, 0,0,0,1, 0] 16384,
@@ -501,5 +294,71 @@ example : frameEvents .normal ⟨8, .ping, 1, 0⟩ (.ping [0,0,0,0,0,0,0,0] true
 example : frameEvents .normal ⟨12, .settings, 0, 0⟩ (.settings [(3, 100), (77, 1)] false) = [.settings 1] := by decide
 example : frameEvents .closedStream ⟨4, .windowUpdate, 0, 1⟩ (.windowUpdate 1 1) = [.glitch, .glitch] := by decide
 example : frameEvents .normal ⟨5, .priority, 0, 1⟩ (.priority 1 false 0 16) = [] := by decide
+
+/-! ### histories: the stream map over whole frame sequences -/
+
+/-- Connection errors are absorbing: in every history, once a step has answered
+    GOAWAY(code) no later frame is handled or answered. -/
+theorem C15_connection_error_absorbing (c : Conn) (pre : List ConnOp) (op : ConnOp) (post : List ConnOp) (k : Nat)
+    (h : (connStep (connRun c pre).1 op).2 = some (.connError k)) :
+    ∀ o ∈ (connRun (connStep (connRun c pre).1 op).1 post).2, o = none :=
+  connRun_after_connError _ op post k h
+
+example : (connRun (Conn.init 2) [.frame 1 .headers true, .frame 5 .data false, .frame 1 .windowUpdate false,
+    .frame 7 .headers true]).2 = [some .handled, some (.connError PROTOCOL_ERROR), none, none] := by decide
+
+/-- The advertised concurrent-stream limit holds over every history: the stream
+    map never holds more than SETTINGS_MAX_CONCURRENT_STREAMS streams. -/
+theorem C15_stream_limit_invariant (maxStreams : Nat) (ops : List ConnOp) :
+    (connRun (Conn.init maxStreams) ops).1.live.length ≤ maxStreams :=
+  connRun_limit (Conn.init maxStreams) ops (Nat.zero_le _)
+
+/-- RST_STREAM is sent at most once per stream over a whole history (so a
+    refused stream is answered REFUSED_STREAM exactly once, and DATA arriving for
+    it afterwards gets no second RST_STREAM). -/
+theorem C15_rst_stream_at_most_once (maxStreams : Nat) (ops : List ConnOp) :
+    (rstHistory (Conn.init maxStreams) ops).Nodup :=
+  (rstHistory_spec (Conn.init maxStreams) ops).1
+
+/-- limit 1: the second request is refused once, frames for it are dropped, the
+    third request is admitted after the first has been answered -/
+example : (connRun (Conn.init 1) [.frame 1 .headers true, .frame 3 .headers true, .frame 3 .data false,
+    .frame 3 .headers true, .respond 1, .frame 5 .headers true]).2
+    = [some .handled, some (.streamError REFUSED_STREAM), some .handled, some .handled, none, some .handled] := by decide
+example : rstHistory (Conn.init 1) [.frame 1 .headers true, .frame 3 .headers true, .frame 3 .data false,
+    .frame 3 .headers true, .respond 1, .frame 1 .data false] = [3, 1] := by decide
+
+/-- Stream-state histories: from the initial state, as long as no HEADERS frame
+    re-uses an id sozu has refused, every step of every history moves every
+    stream along an edge of the RFC 9113 §5.1 diagram (idle → open /
+    half-closed (remote) / closed, open → half-closed (remote) / closed,
+    half-closed (remote) → closed, closed → closed). -/
+theorem C15_stream_state_history_partial (maxStreams : Nat) (ops : List ConnOp) (sid : Nat)
+    (hno : noReuseRun (Conn.init maxStreams) ops) : edgesOk (Conn.init maxStreams) sid ops :=
+  connRun_edgesOk _ ops sid (Conn.init_wf maxStreams) hno
+
+/-- in particular a closed stream stays closed -/
+theorem C15_closed_stream_stays_closed_partial (c : Conn) (ops : List ConnOp) (sid : Nat) (hwf : c.wf)
+    (hno : noReuseRun c ops) (hc : c.rfcState sid = .closed) : (connRun c ops).1.rfcState sid = .closed :=
+  connRun_closed_stays c ops sid hwf hno hc
+
+example : (connRun (Conn.init 2) [.frame 1 .headers true, .frame 1 .rstStream false]).1.wf ∧
+    (connRun (Conn.init 2) [.frame 1 .headers true, .frame 1 .rstStream false]).1.rfcState 1 = .closed ∧
+    noReuseRun (connRun (Conn.init 2) [.frame 1 .headers true, .frame 1 .rstStream false]).1
+      [.frame 1 .data false, .frame 3 .headers true] := by
+  refine ⟨⟨?_, ?_⟩, ?_, ?_⟩ <;> decide
+
+/-- The excluded point: `handle_header_state` admits HEADERS on any odd id above
+    `last_stream_id`, which a refusal does not advance; a refused (closed) id
+    is therefore re-opened by a second HEADERS frame once a slot is free
+    (RFC 9113 §5.1.1: identifiers cannot be re-used). -/
+theorem C15_stream_state_history_counterexample :
+    (connRun (Conn.init 1) [.frame 1 .headers true, .frame 3 .headers true]).1.rfcState 3 = .closed ∧
+    (connRun (Conn.init 1) [.frame 1 .headers true, .frame 3 .headers true, .respond 1, .frame 3 .headers true]).1.rfcState 3
+      = .halfClosedRemote :=
+  c15_stream_state_history_counterexample
+
+example : noReuseRun (Conn.init 2) [.frame 1 .headers false, .frame 1 .data true, .frame 3 .headers true, .respond 1,
+    .frame 1 .windowUpdate false] := by decide
 
 end Sozu.H2Wire
